@@ -54,6 +54,15 @@ CLAIMS = {
     "C05": dict(tech=TECH, ref="§5-C05",
                 text="Proof: the repaired region search returns exactly the indexed nodes of the contig whose interval intersects the closed region (regionNodes_iff) and view --region equals view --node for the nodes under the regions, 'no alignments' when nothing matches (selectRegions_exact); termination is by construction (structural recursion over the node list). Correspondence: real view.run with 1-3 regions (inside one node, on boundaries, spanning nodes, over unaligned nodes, haplotype contigs); an internal error or a foreign line is a violation.",
                 note=BASE + "The property text leaves open whether position b of CONTIG:a-b belongs to the region: the executable spec accepts both readings for a node that only touches b; the model follows the code (closed)."),
+    "C06": dict(tech=TECH, ref="§5-C06",
+                text="PARTIAL proof + definition-level checking. Proved: depth-first traversal of a path-shaped scaffold graph from either end enumerates the chain in order whatever the dict order or the order/multiplicity of neighbour lists (dfs_path, dfs_path_rev, dfs_path_perm); the numbering of a traversal gives scaffold nodes NO = 0 and a bubble's inner nodes the bubble's BO and NO = 1..M in lexicographic order, and nothing else (numberChain_*); chromosomes receive consecutive disjoint BO ranges in request order (runOrder_ranges, written_names). The model never reads BO/NO input tags (stale tags cannot matter). NOT proved in general: ChainCorrect (decompose of a linear chain satisfies the chain specification) - it needs exactness of biccs (C15's open part). It is decided per run by evaluating chainSpecB - built on the definition-level blocks/cut vertices, not on biccs - on the BO/NO the REAL order_gfa wrote, for generated multi-chromosome graphs (SNP/insertion/deletion/inversion/multi-segment/nested bubbles, numeric/mixed ids, shuffled lines, stale tags), with a re-run on a re-shuffled file to check order-independence.",
+                note=BASE + "Known finding K2 (fewer than two articulation points: direction depends on set iteration order / PYTHONHASHSEED) is reported as KNOWN-FINDING from a recorded witness run under 8 hash seeds. Hypotheses: scaffold nodes are reference segments of one SN; strict plurality of the chromosome name in its component."),
+    "C17": dict(tech=TECH, ref="§5-C17",
+                text="PARTIAL (codecs are foreign code). Proved: BGZF virtual offsets order like (block address, offset in block) (voffset_lt); plain byte offsets and BGZF virtual offsets are strictly increasing in the record ordinal; sorting and de-duplicating stored offsets commutes with any strictly increasing offset function, so view's selection on stored offsets is the selection on ordinals (select_parametric) and sort's .gsi holds the offsets of the first/last positions (gsi_parametric). All models are functions of the record list / token list only. Correspondence: every sub-command (index, view nodes/region/format/whole, sort+.gsi, stat, phase, realign, find_path, order_gfa) under {plain, BGZF} GAF x {plain, gzip} graph on generated inputs, one GAF > 64 KiB (several BGZF blocks); outputs, statistics and ordinal-resolved indexes must be identical.",
+                note=BASE + "htslib/pysam BGZF tell/seek/readline and gzip.open are assumed to implement the interface (strictly increasing offsets; seek returns the record); this is exactly what the correspondence exercises on real files."),
+    "C18": dict(tech=TECH, ref="§5-C18",
+                text="Proof: the chromosome loop with its running BO is a pure filter with respect to skipped chromosomes - runOrder dec order = runOrder dec (order without the skipped ones) (skip_isolated); it completes whatever subset cannot be ordered (runOrder_total); exactly the orderable chromosomes are written, in request order (written_names), with consecutive BO ranges (runOrder_ranges). Correspondence: real run_order_gfa on multi-chromosome graphs in which random chromosomes get branching tips, three cut vertices on a cycle, a haplotype tail, or are joined to another chromosome through a haplotype node, at random positions of --chromosome_order; non-chain components must be skipped with no file/CSV, the others must equal a run from which the skipped ones are absent, the command must complete.",
+                note=BASE + "`dec` (decompose_and_order without the BO offset) is modelled in Model/Order.lean and tied by correspondence; that it does not depend on the running BO is by construction of the model (the Python adds bo_start to positions). Genuine defect D19 (AssertionError on components joined through a haplotype) was repaired by a fix: commit."),
 }
 
 IN_PROGRESS = "check under construction in this round; not claimed until its proofs and correspondence run green"
